@@ -287,3 +287,67 @@ pub fn id_collisions() -> &'static Vec<(String, Vec<u8>, Vec<u8>)> {
         out
     })
 }
+
+/// The SAME content in other common framings (what a caller who mixed up two APIs, or a peer that
+/// speaks another encoding of the same structure, would deliver): text encodings of the bytes, and
+/// for a sequence of fixed-size parts the DER forms (INTEGERs / OCTET STRINGs / BIT STRINGs in a
+/// SEQUENCE) and parts padded to the next size. `parts`: the byte ranges of the components.
+pub fn reframings(raw: &[u8], parts: &[(usize, usize)]) -> Vec<(&'static str, Vec<u8>)> {
+    use crate::refmodel::der::{der_uint, tlv};
+    let mut out: Vec<(&'static str, Vec<u8>)> = vec![];
+    out.push(("hex-lower", hex::encode(raw).into_bytes()));
+    out.push(("hex-upper", hex::encode_upper(raw).into_bytes()));
+    out.push(("hex-0x", format!("0x{}", hex::encode(raw)).into_bytes()));
+    // base64 (standard alphabet, padded)
+    {
+        const A: &[u8; 64] = b"ABCDEFGHIJKLMNOPQRSTUVWXYZabcdefghijklmnopqrstuvwxyz0123456789+/";
+        let mut b = Vec::new();
+        for ch in raw.chunks(3) {
+            let n = (ch[0] as u32) << 16 | (*ch.get(1).unwrap_or(&0) as u32) << 8 | *ch.get(2).unwrap_or(&0) as u32;
+            b.push(A[(n >> 18) as usize & 63]);
+            b.push(A[(n >> 12) as usize & 63]);
+            b.push(if ch.len() > 1 { A[(n >> 6) as usize & 63] } else { b'=' });
+            b.push(if ch.len() > 2 { A[n as usize & 63] } else { b'=' });
+        }
+        out.push(("base64", b));
+    }
+    let comps: Vec<&[u8]> = parts.iter().filter(|(a, b)| a <= b && *b <= raw.len()).map(|(a, b)| &raw[*a..*b]).collect();
+    if comps.len() == parts.len() && !comps.is_empty() {
+        let ints: Vec<u8> = comps.iter().flat_map(|c| der_uint(&BigUint::from_bytes_be(c))).collect();
+        out.push(("der-sequence-of-integers", tlv(0x30, &ints)));
+        let octs: Vec<u8> = comps.iter().flat_map(|c| tlv(0x04, c)).collect();
+        out.push(("der-sequence-of-octet-strings", tlv(0x30, &octs)));
+        let bits: Vec<u8> = comps.iter().flat_map(|c| tlv(0x03, &[&[0u8][..], c].concat())).collect();
+        out.push(("der-sequence-of-bit-strings", tlv(0x30, &bits)));
+        out.push(("der-octet-string-of-all", tlv(0x04, raw)));
+        let padded: Vec<u8> = comps.iter().flat_map(|c| [&[0u8][..], c].concat()).collect();
+        out.push(("parts-padded-with-00", padded));
+        let lenpref: Vec<u8> = comps.iter().flat_map(|c| [&(c.len() as u16).to_be_bytes()[..], c].concat()).collect();
+        out.push(("parts-length-prefixed", lenpref));
+    }
+    out
+}
+
+/// History "damaged first": the receive op `recv` is given a damaged copy of what slot-field
+/// `field` names BEFORE it ever sees the genuine one (the caller appends the genuine delivery).
+/// A receiver that leaves something behind when it rejects (a pending table entry, a lock, a
+/// half-updated cache) then meets the genuine message in that state. `min_len`: a lower bound of
+/// the slot's length.
+pub fn damaged_first(p: &mut Prng, recv: &Value, field: &str, min_len: usize) -> Vec<Value> {
+    let src = recv.get(field).and_then(|v| v.as_str()).unwrap_or("").to_string();
+    let tmp = format!("{src}.bad");
+    let mut r = recv.clone();
+    r[field] = json!(tmp);
+    if let Some(o) = r.as_object_mut() {
+        o.remove("out");
+        o.remove("ref_on_reject");
+    }
+    let f = match p.below(5) {
+        0 | 1 => json!({"op":"fault","slot":tmp,"kind":"flip","bit":p.range(0, min_len * 8 - 1)}),
+        2 => json!({"op":"fault","slot":tmp,"kind":"truncate","len":p.range(0, min_len - 1)}),
+        3 => json!({"op":"fault","slot":tmp,"kind":"extend","hex":"00"}),
+        // the last byte (for r||s or h||S: the low byte of the second component / of y)
+        _ => json!({"op":"fault","slot":tmp,"kind":"xorbyte","pos":min_len - 1,"val":1}),
+    };
+    vec![json!({"op":"copy","from":src,"to":tmp}), f, r]
+}
